@@ -38,7 +38,7 @@ try:
                     if 'case' in payload:
                         cd = os.path.join('/verif/harness/corpus', i)
                         os.makedirs(cd, exist_ok=True)
-                        json.dump({'origin': os.path.basename(d), 'what': str(payload.get('what'))[:300], 'case': payload['case']},
+                        json.dump({'origin': os.path.basename(d), 'what': str(payload.get('what'))[:300], 'case': payload['case'], 'unshrunk': payload.get('unshrunk_case')},
                                   open(os.path.join(cd, os.path.basename(d) + '.json'), 'w'), indent=1)
                         res.setdefault('saved_corpus', []).append(i)
                 except Exception as e:  # noqa
